@@ -273,7 +273,8 @@ def run(ctx):
     dense = ('@import /*i*/ "x.css" /*j*/ tv /*k*/, print;\n@namespace /*n*/ p /*m*/ "u";\n'
              '@media tv /*a*/ , print /*b*/ { a/*c*/.b , li/*d*/:hover > em/*e*/[title] { left /*f*/ : /*g*/ 1px /*h*/ 2px ; } }\n'
              '@page /*p*/ :first { margin : 1px }\n/*top*/\np|x/*q*/#i /*r*/ + y/*u*/::after { color: red /*s*/ !important }\n'
-             '@font-face /*t*/ { font-family : x }\nq/*v*/:not(/*w*/.z/*x*/) { top: 0 }')
+             '@font-face /*t*/ { font-family : x }\nq/*v*/:not(/*w*/.z/*x*/) { top: 0 }\n'
+             '@media tv {}\n@media print { /*only*/ }\n@media tv { @x y; }\ne {}\n@media tv { f {} }')
     try:
         dom = c03.parse(dense)
         cssutils.ser.prefs.useDefaults()
@@ -305,6 +306,28 @@ def run(ctx):
     # a blank as line separator (one-line output): the dedicated family of the known finding
     for dom, text, base, sem, tok in doms[:2]:
         check_assignment(ctx, dom, text, {'lineSeparator': ' '}, base, sem, tok)
+    # a serialisation that fails (a preference given an unusable value) and is abandoned: restoring the defaults must
+    # still restore the default output byte for byte (no serializer state may survive the failure)
+    for dom, text, base, sem, tok in doms[:3] + doms[-1:]:
+        for k in ('propertyNameSpacer', 'indent', 'lineSeparator', 'selectorCombinatorSpacer', 'listItemSpacer', 'paranthesisSpacer',
+                  'importHrefFormat', 'omitLastSemicolon'):
+            case = {'text': text, 'prefs': {k: None}, 'family': 'failed-serialisation'}
+            ctx.case((text, 'fault', k))
+            try:
+                setattr(cssutils.ser.prefs, k, None)
+                try:
+                    dom.cssText
+                except Exception:  # noqa: the failure itself is not the subject
+                    pass
+                cssutils.ser.prefs.useDefaults()
+                back = dom.cssText
+            except Exception as e:
+                cssutils.ser.prefs.useDefaults()
+                ctx.violation('raises', case, '%s: %s' % (type(e).__name__, e), KNOWN_PRED)
+                continue
+            if back != base:
+                ctx.violation('defaults-not-restored', case, 'default output after a failed serialisation and useDefaults() differs: %r vs %r' % (
+                    back[:200], base[:200]), KNOWN_PRED)
     ctx.sample({'text': doms[0][1][:400], 'prefs_example': singles[3]})
     ctx.extra['assignment_families'] = {'singles': len(singles), 'pairs': npairs, 'doms': len(doms)}
     out_correspondence(ctx, 400 if quick else 20000)
